@@ -71,6 +71,9 @@ func (p *Plan) Len() int {
 
 // pre returns a non-nil errno if the call must fail without being executed.
 func pre(op, path, arg string) (ev *Event, inj *Fault) {
+	if s := curSched.Load(); s != nil && s.Cur != nil {
+		s.Cur.PtPath = path
+	}
 	Yield("fs:" + op)
 	p := curPlan.Load()
 	if p == nil {
